@@ -6,7 +6,7 @@ import t2, t2props, t4
 def judge(c, iv, ia, spec, mv, ma):
     if iv.startswith("panic") or iv.startswith("abort"):
         return ("no abort", "decoder aborted (allocation failure?)")
-    n = len(c["hex"]) // 2
+    n = c.get("n", len(c["hex"]) // 2)
     smax = max(list(t2.spec_sizes(spec).values()) + [8])
     total = 0
     for a in ia:
